@@ -46,6 +46,7 @@ var Quirks = []Quirk{
 	{ID: "C01-streaming-payload-validated-alias", Detect: hasStreamingPayloadValidatedAlias, SigAny: []string{"server/types: invalid operation: _ != nil (mismatched types", "client/types: invalid operation: _ != nil (mismatched types"}},
 	{ID: "C04-validation-written-in-header-mapping-not-enforced", Detect: hasHeaderMappingValidation},
 	{ID: "C10-nested-collection-wrappers-share-one-validator", Detect: hasValidatedNestedCollection},
+	{ID: "C08-nested-result-type-requiredness-read-from-nested-type", Detect: func(d *m.Design) bool { return nestedRequiredNameClash(d, false) }},
 	{ID: "C01-bytes-param-with-length-validation", Detect: hasBytesParamWithLength, SigAny: []string{"client/cli: undefined: _"}},
 	{ID: "C01-result-type-required-validated-response-header", Detect: hasResultTypeRequiredValidatedHeader, SigAny: []string{"client/encode_decode: invalid operation: _ != nil (mismatched types"}},
 }
@@ -946,4 +947,35 @@ func hasRecursiveTypeWithUnion(d *m.Design) bool {
 		}
 	}
 	return false
+}
+
+// nestedRequiredNameClash: a result type P has an attribute x whose type is a
+// result type N, and N itself requires an attribute that is also named x. The
+// view validation code of P decides whether P.x is required by asking N
+// (open finding). With relax set the clash is removed by making N.x optional.
+func nestedRequiredNameClash(d *m.Design, relax bool) bool {
+	found := false
+	for _, p := range d.Types {
+		if !p.Result || p.CollectionOf != "" || p.Attr == nil || p.Attr.Type.Kind != m.Object {
+			continue
+		}
+		for _, f := range p.Attr.Type.Fields {
+			if f.Attr.Type.Kind != m.User {
+				continue
+			}
+			n := d.TypeByName(f.Attr.Type.User)
+			if n == nil || !n.Result || n.CollectionOf != "" || n.Attr == nil || n.Attr.Type.Kind != m.Object {
+				continue
+			}
+			for _, nf := range n.Attr.Type.Fields {
+				if nf.Name == f.Name && nf.Required {
+					found = true
+					if relax {
+						nf.Required = false
+					}
+				}
+			}
+		}
+	}
+	return found
 }
